@@ -1,2 +1,732 @@
-(* Lemmas about the response model (builder P2b). *)
+(* Lemmas about the response model (builder P2b: C16, C17, C18, C19). *)
 From V Require Import Model.Response Gen.ConstResponse.
+From Coq Require Import ZifyBool.
+Ltac Zify.zify_post_hook ::= Z.div_mod_to_equations.
+
+Ltac consts :=
+  unfold EF_HEADER_LENGTH, MIN_UNTRUSTED_V4_LAST, MIN_UNTRUSTED_V4, MIN_UNTRUSTED_V5, MIN_AUTHENTICATED,
+    MIN_ENCRYPTED, MIN_V5_PADDING, NONCE_LEN_256, HEADER_V4_LENGTH, RESP_MAX_COOKIES, MAC_MAXIMUM_SIZE,
+    AEAD_ID_256, AEAD_ID_512, COOKIE_KEYWIDTH_256, COOKIE_KEYWIDTH_512 in *.
+
+(* ------------------------------------------------------------------ arithmetic and lists *)
+Lemma len_app {A} (a b : list A) : len (a ++ b) = len a + len b.
+Proof. unfold len. rewrite app_length. lia. Qed.
+Lemma len_nonneg {A} (l : list A) : 0 <= len l.
+Proof. unfold len. lia. Qed.
+Lemma len_nil {A} : len (@nil A) = 0.
+Proof. reflexivity. Qed.
+Lemma len_cons {A} (x : A) l : len (x :: l) = 1 + len l.
+Proof. unfold len. simpl length. lia. Qed.
+Lemma len_zeros n : len (zeros n) = Z.max 0 n.
+Proof. unfold len, zeros. rewrite repeat_length. lia. Qed.
+Lemma len_be16 n : len (be16 n) = 2.
+Proof. reflexivity. Qed.
+Ltac lens := repeat (rewrite len_app || rewrite len_cons || rewrite len_zeros || rewrite len_nil || rewrite len_be16).
+Lemma next4_ge n : n <= next4 n.
+Proof. unfold next4. destruct (n mod 4 =? 0) eqn:E; lia. Qed.
+Lemma next4_lt n : next4 n < n + 4.
+Proof. unfold next4. destruct (n mod 4 =? 0) eqn:E; lia. Qed.
+Lemma next4_mod n : next4 n mod 4 = 0.
+Proof. unfold next4. destruct (n mod 4 =? 0) eqn:E; lia. Qed.
+Lemma next4_id n : n mod 4 = 0 -> next4 n = n.
+Proof. unfold next4. intros H. rewrite H. reflexivity. Qed.
+Lemma next4_mono a b : a <= b -> next4 a <= next4 b.
+Proof.
+  intros H. pose proof (next4_mod a). pose proof (next4_mod b).
+  pose proof (next4_ge a). pose proof (next4_ge b). pose proof (next4_lt a). pose proof (next4_lt b). lia.
+Qed.
+Lemma sumZ_app a b : sumZ (a ++ b) = sumZ a + sumZ b.
+Proof. induction a; simpl; lia. Qed.
+Lemma wrap_small bits z : 0 <= z < 2 ^ bits -> wrap bits z = z.
+Proof. intros. unfold wrap. apply Z.mod_small. lia. Qed.
+
+Lemma Ok_inj {A} (x y : A) : @Ok A x = Ok y -> x = y.
+Proof. congruence. Qed.
+
+(* ------------------------------------------------------------------ sizes of encoded fields *)
+(* closed formula for the size of a re-encoded field *)
+Definition esz (min : Z) (f : field) : Z :=
+  match f with
+  | FUid d | FDraft d => next4 (Z.max (len d + 4) min)
+  | FCookie n | FPlaceholder n | FUnknown _ n => next4 (Z.max (Z.max 0 n + 4) min)
+  | FRefResp d => next4 (len d + 4)
+  | FRefReq plen _ => 8 + 4 * Z.max 0 (plen / 4 - 1)
+  | FPadding n => next4 (Z.max n min)
+  | FInvalidNts => 0
+  end.
+Fixpoint esz_list (minf : bool -> Z) (fs : list field) : Z :=
+  match fs with [] => 0 | f :: r => esz (minf (is_nil r)) f + esz_list minf r end.
+
+Lemma enc_generic_len ty data min v5 b :
+  enc_generic ty data min v5 = Ok b -> len b = next4 (Z.max (len data + 4) min).
+Proof.
+  unfold enc_generic, enc_framing, enc_padding. consts.
+  destruct (len data >? 65535 - 4) eqn:E; simpl; [discriminate|].
+  intros H. inversion H; subst. unfold be16. lens.
+  pose proof (next4_ge (Z.max (len data + 4) min)). lia.
+Qed.
+
+Lemma enc_generic_ok ty data min v5 :
+  len data <= 65531 -> exists b, enc_generic ty data min v5 = Ok b.
+Proof.
+  intros H. unfold enc_generic, enc_framing, enc_padding. consts.
+  destruct (len data >? 65535 - 4) eqn:E; [lia|]. simpl. eauto.
+Qed.
+
+Definition not_padding (f : field) : Prop := match f with FPadding _ => False | _ => True end.
+
+Lemma encode_field_len v5 min f b :
+  not_padding f -> encode_field v5 min f = Ok b -> len b = esz min f.
+Proof.
+  destruct f; unfold encode_field, esz, not_padding; intros NP H; try contradiction; try discriminate.
+  - apply enc_generic_len in H. exact H.
+  - apply enc_generic_len in H. rewrite len_zeros in H. exact H.
+  - apply enc_generic_len in H. rewrite len_zeros in H. exact H.
+  - apply enc_generic_len in H. exact H.
+  - destruct (negb (plen mod 4 =? 0)); [discriminate|]. apply Ok_inj in H. rewrite <- H.
+    unfold be16. lens. lia.
+  - destruct (len d >? 65535) eqn:E; [discriminate|]. apply Ok_inj in H. rewrite <- H.
+    unfold be16. lens. unfold wrap. change (2 ^ 16) with 65536. pose proof (len_nonneg d).
+    unfold next4. destruct ((len d + 4) mod 4 =? 0) eqn:E2; lia.
+  - apply enc_generic_len in H. rewrite len_zeros in H. exact H.
+Qed.
+
+Lemma esz_mod4 min f : not_padding f -> esz min f mod 4 = 0.
+Proof.
+  destruct f; unfold esz, not_padding; intros NP; try contradiction; try apply next4_mod; lia.
+Qed.
+
+Lemma encode_fields_len v5 minf fs b :
+  Forall not_padding fs -> encode_fields v5 minf fs = Ok b -> len b = esz_list minf fs.
+Proof.
+  revert b. induction fs as [|f r IH]; simpl; intros b NP H.
+  - inversion H. reflexivity.
+  - inversion NP; subst.
+    destruct (encode_field v5 (minf (is_nil r)) f) eqn:E1; simpl in H; try discriminate.
+    destruct (encode_fields v5 minf r) eqn:E2; simpl in H; try discriminate.
+    inversion H; subst. rewrite len_app. erewrite encode_field_len by eauto. rewrite (IH a0); auto.
+Qed.
+
+Lemma esz_list_mod4 minf fs : Forall not_padding fs -> esz_list minf fs mod 4 = 0.
+Proof.
+  induction fs as [|f r IH]; simpl; intros NP; [reflexivity|].
+  inversion NP; subst. pose proof (esz_mod4 (minf (is_nil r)) f H1). specialize (IH H2). lia.
+Qed.
+
+(* fields that serialize re-encodes without error *)
+Definition encodable (f : field) : Prop :=
+  match f with
+  | FUid d | FDraft d | FRefResp d => len d <= 65531
+  | FCookie n => n <= 65531
+  | _ => False
+  end.
+
+Lemma encode_field_ok v5 min f : encodable f -> exists b, encode_field v5 min f = Ok b.
+Proof.
+  destruct f; simpl; intros H; try contradiction.
+  - apply enc_generic_ok; auto.
+  - apply enc_generic_ok. rewrite len_zeros. lia.
+  - apply enc_generic_ok; auto.
+  - destruct (len d >? 65535) eqn:E; [lia|]. eauto.
+Qed.
+
+Lemma encodable_not_padding f : encodable f -> not_padding f.
+Proof. destruct f; simpl; auto. Qed.
+
+Lemma encode_fields_ok v5 minf fs : Forall encodable fs -> exists b, encode_fields v5 minf fs = Ok b.
+Proof.
+  induction fs as [|f r IH]; simpl; intros H; [eauto|].
+  inversion H; subst. destruct (encode_field_ok v5 (minf (is_nil r)) f H2) as [a Ea].
+  destruct (IH H3) as [b Eb]. rewrite Ea, Eb. simpl. eauto.
+Qed.
+
+(* the NTPv5 padding field *)
+Lemma padding_len n b :
+  4 <= n < 2 ^ 64 -> n mod 4 = 0 ->
+  encode_field true MIN_V5_PADDING (FPadding n) = Ok b -> len b = n.
+Proof.
+  intros R M. simpl. unfold enc_framing, enc_padding. consts.
+  rewrite (wrap_small 64 (n - 4)) by lia.
+  destruct (n - 4 >? 65535 - 4) eqn:E; simpl; [discriminate|].
+  intros H. inversion H; subst. unfold be16. lens.
+  rewrite (next4_id (Z.max (n - 4 + 4) 4)) by lia. lia.
+Qed.
+
+Lemma padding_ok n :
+  4 <= n <= 65535 -> exists b, encode_field true MIN_V5_PADDING (FPadding n) = Ok b.
+Proof.
+  intros R. simpl. unfold enc_framing, enc_padding. consts.
+  rewrite (wrap_small 64 (n - 4)) by lia.
+  destruct (n - 4 >? 65535 - 4) eqn:E; [lia|]. simpl. eauto.
+Qed.
+
+Lemma padding_small_err n :
+  0 < n < 4 -> exists e, encode_field true MIN_V5_PADDING (FPadding n) = Err e.
+Proof.
+  intros R. simpl. unfold enc_framing. consts. unfold wrap.
+  assert ((n - 4) mod 2 ^ 64 = 2 ^ 64 + n - 4) as -> by (symmetry; apply (Z.mod_unique _ _ (-1)); lia).
+  destruct (2 ^ 64 + n - 4 >? 65535 - 4) eqn:E; [|lia]. simpl. eauto.
+Qed.
+
+(* ------------------------------------------------------------------ C16: bounded cursor *)
+Ltac bind_step :=
+  match goal with |- res_bind ?X _ = _ -> _ => destruct X eqn:?; cbn [res_bind]; try discriminate end.
+
+Lemma serialize_le a B w : serialize a B = Ok w -> wire_len w <= B.
+Proof.
+  unfold serialize. cbv zeta. destruct (a_ver a =? 3).
+  - destruct (len (a_header a) <=? B) eqn:E; [|discriminate]. intros H; inversion H; subst.
+    unfold wire_len, wauth_len; cbn [w_prefix w_auth w_suffix]. unfold len in *. simpl. lia.
+  - do 3 bind_step.
+    match goal with |- (if ?c then _ else _) = _ -> _ => destruct c eqn:E; [|discriminate] end.
+    intros H; inversion H; subst. lia.
+Qed.
+
+Lemma respond_le stats ra B s w : respond stats ra B = ORespond s w -> wire_len w <= B.
+Proof.
+  unfold respond. destruct ra as [a| |]; try discriminate.
+  destruct (serialize a B) eqn:E; try discriminate. intros H; inversion H; subst. eapply serialize_le; eauto.
+Qed.
+
+Lemma handle_le tf cfg st q recv now m B s w :
+  handle tf cfg st q recv now m B = ORespond s w -> wire_len w <= B.
+Proof.
+  unfold handle. destruct (decision cfg q) as [[[[k alg] stats]|]|]; try discriminate.
+  apply respond_le.
+Qed.
+
+Lemma daemon_le tf cfg st q recv now s w :
+  daemon_reply tf cfg st q recv now = ORespond s w -> wire_len w <= request_len q.
+Proof. apply handle_le. Qed.
+
+(* the part of serialize before the NTPv5 padding *)
+Definition unpadded (a : answer) : res wire :=
+  let v5 := a_ver a =? 5 in
+  do ap <- (if negb (is_nil (a_auth a)) || negb (is_nil (a_enc a)) then
+              if negb (a_cipher a) then Err 4 else
+              do ab <- encode_fields v5 min_auth (a_auth a);
+              do pb <- encode_fields v5 min_enc (a_enc a);
+              let ct := len pb + 16 in
+              Ok (ab, Some (8 + next4 NONCE_LEN_256 + next4 ct, NONCE_LEN_256, ct, map cookie_code (a_enc a)))
+            else Ok ([], None));
+  do ub <- encode_fields v5 (min_untrusted v5) (a_untrusted a);
+  Ok {| w_prefix := a_header a ++ fst ap; w_auth := snd ap; w_suffix := ub |}.
+
+(* NTPv5 answers with a desired size are never shorter than it, and exactly as long when the
+   unpadded answer fits and both lengths are multiples of four *)
+Lemma serialize_v5_exact a B w w0 d :
+  a_ver a = 5 -> a_desired a = Some d -> 0 <= d < 2 ^ 64 ->
+  unpadded a = Ok w0 -> 0 <= wire_len w0 -> wire_len w0 mod 4 = 0 -> d mod 4 = 0 ->
+  serialize a B = Ok w ->
+  (wire_len w0 <= d -> wire_len w = d) /\ (d <= wire_len w0 -> w = w0).
+Proof.
+  intros V D R U P0 M0 Md. unfold serialize. cbv zeta. rewrite V. change (5 =? 3) with false. change (5 =? 5) with true.
+  unfold unpadded in U. cbv zeta in U. rewrite V in U. change (5 =? 5) with true in U.
+  cbv iota.
+  match type of U with res_bind ?X _ = _ => destruct X as [ap| |]; cbn [res_bind] in *; try discriminate end.
+  match type of U with res_bind ?X _ = _ => destruct X as [ub| |]; cbn [res_bind] in *; try discriminate end.
+  apply Ok_inj in U. subst w0. rewrite D.
+  match goal with |- context [d >? ?X] => set (written := X) in * end.
+  destruct (d >? written) eqn:G.
+  - destruct (encode_field true MIN_V5_PADDING (FPadding (d - written))) as [p| |] eqn:EP; cbn [res_bind]; try discriminate.
+    match goal with |- (if ?c then _ else _) = _ -> _ => destruct c eqn:LE; [|discriminate] end.
+    intros H; apply Ok_inj in H; subst w.
+    assert (4 <= d - written) by lia.
+    apply padding_len in EP; [|lia|lia].
+    split; [|lia]. intros _. unfold written, wire_len in *. cbn [w_prefix w_auth w_suffix] in *. rewrite !len_app in *. lia.
+  - cbn [res_bind].
+    match goal with |- (if ?c then _ else _) = _ -> _ => destruct c eqn:LE; [|discriminate] end.
+    intros H; apply Ok_inj in H; subst w.
+    split; [lia|auto].
+Qed.
+
+Lemma encode_fields_mod4 v5 minf fs b :
+  Forall not_padding fs -> encode_fields v5 minf fs = Ok b -> len b mod 4 = 0.
+Proof. intros NP H. rewrite (encode_fields_len _ _ _ _ NP H). apply esz_list_mod4; auto. Qed.
+
+(* a padding field of 1..3 bytes cannot be written: the answer is dropped, never rounded up *)
+Lemma serialize_v5_no_rounding a B w w0 d :
+  a_ver a = 5 -> a_desired a = Some d -> unpadded a = Ok w0 ->
+  0 < d - wire_len w0 < 4 -> serialize a B = Ok w -> False.
+Proof.
+  intros V D U R. unfold serialize. cbv zeta. rewrite V. change (5 =? 3) with false. change (5 =? 5) with true.
+  unfold unpadded in U. cbv zeta in U. rewrite V in U. change (5 =? 5) with true in U.
+  cbv iota.
+  match type of U with res_bind ?X _ = _ => destruct X as [ap| |]; cbn [res_bind] in *; try discriminate end.
+  match type of U with res_bind ?X _ = _ => destruct X as [ub| |]; cbn [res_bind] in *; try discriminate end.
+  apply Ok_inj in U. subst w0. rewrite D.
+  match goal with |- context [d >? ?X] => set (written := X) in * end.
+  destruct (d >? written) eqn:G; [|lia].
+  destruct (padding_small_err (d - written) R) as [e Ee]. rewrite Ee. cbn [res_bind]. discriminate.
+Qed.
+
+(* ------------------------------------------------------------------ C18: what an answer contains *)
+Lemma echo_uid_In f l : In f (echo_uid l) -> (exists d, f = FUid d) /\ In f l.
+Proof.
+  unfold echo_uid. rewrite filter_In. intros [HI HU]. split; auto.
+  destruct f; simpl in HU; try discriminate. eauto.
+Qed.
+
+Lemma echo_v5_In flt f l :
+  In f (echo_v5 flt l) ->
+  ((exists d, f = FUid d) /\ In f l)
+  \/ (exists plen off, In (FRefReq plen off) l /\ refid_response flt plen off = Some f).
+Proof.
+  induction l as [|x r IH]; simpl; [tauto|].
+  destruct x; simpl; try (intros H; destruct (IH H) as [[? ?]|[p [o [? ?]]]]; [left|right]; eauto 6; fail).
+  - intros [H|H]; [subst; left; eauto|]. destruct (IH H) as [[? ?]|[p [o [? ?]]]]; [left|right]; eauto 6.
+  - destruct (refid_response flt plen off) eqn:E.
+    + intros [H|H]; [subst; right; eauto 6|]. destruct (IH H) as [[? ?]|[p [o [? ?]]]]; [left|right]; eauto 6.
+    + intros H. destruct (IH H) as [[? ?]|[p [o [? ?]]]]; [left|right]; eauto 6.
+Qed.
+
+Lemma refid_response_spec flt plen off f :
+  refid_response flt plen off = Some f ->
+  f = FRefResp (firstn (Z.to_nat plen) (skipn (Z.to_nat off) flt)) /\ off <= len flt /\ plen <= len flt - off.
+Proof.
+  unfold refid_response. destruct ((off <=? len flt) && (plen <=? len flt - off)) eqn:E; [|discriminate].
+  intros H; inversion H. split; auto. lia.
+Qed.
+
+Lemma filter_map_In {A B} (g : A -> option B) l y :
+  In y (filter_map g l) -> exists x, In x l /\ g x = Some y.
+Proof.
+  induction l as [|x r IH]; simpl; [tauto|].
+  destruct (g x) eqn:E.
+  - intros [H|H]; [subst; eauto|]. destruct (IH H) as [x' [? ?]]. eauto.
+  - intros H. destruct (IH H) as [x' [? ?]]. eauto.
+Qed.
+
+Lemma fresh_for_spec fresh x y :
+  fresh_for fresh x = Some y ->
+  y = FCookie fresh /\ ((exists n, x = FCookie n /\ fresh <= n) \/ (exists n, x = FPlaceholder n /\ fresh <= n)).
+Proof.
+  destruct x; simpl; try discriminate.
+  - destruct (fresh >? n) eqn:E; [discriminate|]. intros H; inversion H. split; auto. left. exists n. split; auto. lia.
+  - destruct (fresh >? n) eqn:E; [discriminate|]. intros H; inversion H. split; auto. right. exists n. split; auto. lia.
+Qed.
+
+Lemma firstn_In {A} n (l : list A) x : In x (firstn n l) -> In x l.
+Proof. revert l. induction n; destruct l; simpl; try tauto. intros [H|H]; auto. Qed.
+
+Lemma fresh_cookies_In tf alg q f :
+  In f (fresh_cookies tf alg q) ->
+  f = FCookie (cookie_len alg) /\
+  exists x, In x (q_auth q ++ q_enc q) /\
+    ((exists n, x = FCookie n /\ cookie_len alg <= n) \/ (exists n, x = FPlaceholder n /\ cookie_len alg <= n)).
+Proof.
+  unfold fresh_cookies. destruct tf; intros H.
+  - apply firstn_In in H. apply filter_map_In in H. destruct H as [x [HI HG]].
+    apply fresh_for_spec in HG. destruct HG. split; auto. eauto.
+  - apply filter_map_In in H. destruct H as [x [HI HG]]. apply firstn_In in HI.
+    apply fresh_for_spec in HG. destruct HG. split; auto. eauto.
+Qed.
+
+(* the fields of any answer: echoed unique identifiers of the request's untrusted or authenticated
+   fields (never of its encrypted ones), reference-id responses cut from the server's filter for
+   reference-id requests of the request (NTPv5 time answers), the draft identification (NTPv5),
+   fresh cookies (encrypted part of NTS time answers); nothing else *)
+Definition allowed_field (k : kind) (alg : Z) (st : sstate) (q : request) (f : field) : Prop :=
+  ((exists d, f = FUid d) /\ In f (q_untrusted q ++ q_auth q))
+  \/ (q_version q = 5 /\ (k = KTime \/ k = KNtsTime) /\
+      exists plen off, In (FRefReq plen off) (q_untrusted q ++ q_auth q)
+        /\ f = FRefResp (firstn (Z.to_nat plen) (skipn (Z.to_nat off) (s_filter st)))
+        /\ off <= len (s_filter st) /\ plen <= len (s_filter st) - off)
+  \/ (q_version q = 5 /\ f = draft_field).
+
+Lemma Zeqb_cases a b : (a =? b) = true -> a = b.
+Proof. lia. Qed.
+
+Lemma build_fields tf k alg st q recv now mlen a :
+  (q_version q = 3 \/ q_version q = 4 \/ q_version q = 5) ->
+  build tf k alg st q recv now mlen = Ok a ->
+  a_ver a = q_version q
+  /\ Forall (allowed_field k alg st q) (a_untrusted a ++ a_auth a)
+  /\ Forall (fun f => k = KNtsTime /\ f = FCookie (cookie_len alg) /\
+        exists x, In x (q_auth q ++ q_enc q) /\
+          ((exists n, x = FCookie n /\ cookie_len alg <= n) \/ (exists n, x = FPlaceholder n /\ cookie_len alg <= n)))
+       (a_enc a)
+  /\ (is_nts_kind k = true -> a_untrusted a = [] /\ a_cipher a = true /\
+        Forall (fun f => (exists d, f = FUid d) -> In f (q_auth q)) (a_auth a))
+  /\ (is_nts_kind k = false -> a_auth a = [] /\ a_enc a = [] /\ a_cipher a = false).
+Proof.
+  intros HVER.
+  assert (UID: forall l, incl l (q_untrusted q ++ q_auth q) ->
+     Forall (allowed_field k alg st q) (echo_uid l)).
+  { intros l IL. apply Forall_forall. intros f HF. apply echo_uid_In in HF. destruct HF. left. split; auto. }
+  assert (V5: forall l, q_version q = 5 -> (k = KTime \/ k = KNtsTime) -> incl l (q_untrusted q ++ q_auth q) ->
+     Forall (allowed_field k alg st q) (echo_v5 (s_filter st) l ++ [draft_field])).
+  { intros l HV HK IL. apply Forall_app. split.
+    - apply Forall_forall. intros f HF. apply echo_v5_In in HF. destruct HF as [[? ?]|[p [o [? HR]]]].
+      + left. split; auto.
+      + apply refid_response_spec in HR. destruct HR as [? [? ?]]. right. left. split; auto. split; auto. exists p, o. auto.
+    - constructor; [|constructor]. right. right. auto. }
+  assert (DR: q_version q = 5 -> forall l, incl l (q_untrusted q ++ q_auth q) ->
+     Forall (allowed_field k alg st q) (echo_uid l ++ [draft_field])).
+  { intros HV l IL. apply Forall_app. split; [apply UID; auto|]. constructor; [|constructor]. right. right. auto. }
+  assert (IA: incl (q_auth q) (q_untrusted q ++ q_auth q)) by (apply incl_appr, incl_refl).
+  assert (FC: forall tf0, Forall (fun f => KNtsTime = KNtsTime /\ f = FCookie (cookie_len alg) /\
+        exists x, In x (q_auth q ++ q_enc q) /\
+          ((exists n, x = FCookie n /\ cookie_len alg <= n) \/ (exists n, x = FPlaceholder n /\ cookie_len alg <= n)))
+       (fresh_cookies tf0 alg q)).
+  { intros tf0. apply Forall_forall. intros f HF. apply fresh_cookies_In in HF. destruct HF. auto. }
+  assert (AU: forall l, incl l (q_auth q) -> Forall (fun f => (exists d, f = FUid d) -> In f (q_auth q)) (echo_uid l)).
+  { intros l IL. apply Forall_forall. intros f HF _. apply echo_uid_In in HF. destruct HF. auto. }
+  assert (AU5: forall l, incl l (q_auth q) ->
+     Forall (fun f => (exists d, f = FUid d) -> In f (q_auth q)) (echo_v5 (s_filter st) l ++ [draft_field])).
+  { intros l IL. apply Forall_forall. intros f HF [d Hd]. subst f. apply in_app_or in HF. destruct HF as [HF|HF].
+    - apply echo_v5_In in HF. destruct HF as [[? ?]|[p [o [? HR]]]]; auto.
+      apply refid_response_spec in HR. destruct HR as [HR _]. discriminate.
+    - simpl in HF. destruct HF as [HF|[]]. discriminate. }
+  assert (AUD: forall l, incl l (q_auth q) ->
+     Forall (fun f => (exists d, f = FUid d) -> In f (q_auth q)) (echo_uid l ++ [draft_field])).
+  { intros l IL. apply Forall_app. split; [apply AU; auto|]. constructor; [|constructor]. intros [d Hd]. discriminate. }
+  unfold build.
+  destruct k; cbv zeta;
+    destruct (q_version q =? 3) eqn:E3; try discriminate;
+    try (destruct (q_version q =? 4) eqn:E4);
+    intros H; apply Ok_inj in H; subst a; cbn [a_ver a_untrusted a_auth a_enc a_cipher mk_answer is_nts_kind];
+    rewrite ?app_nil_r; cbn [app];
+    repeat split; try discriminate; auto using Forall_nil, incl_refl; try lia.
+  all: try (apply UID, incl_refl).
+  all: try (apply V5; auto using incl_refl; lia).
+  all: try (apply DR; auto using incl_refl; lia).
+  all: try (apply UID; auto).
+  all: try (apply V5; auto; lia).
+  all: try (apply DR; auto; lia).
+  all: try apply FC.
+  all: try (apply AU, incl_refl).
+  all: try (apply AU5, incl_refl).
+  all: try (apply AUD, incl_refl).
+Qed.
+
+(* headers of time answers and of DENY / RATE / NTS-NAK answers, spelled out *)
+Definition is_time_kind (k : kind) : bool := match k with KTime | KNtsTime => true | _ => false end.
+
+Definition time_header (k : kind) (st : sstate) (q : request) (recv now : list Z) : list Z :=
+  if q_version q =? 5 then
+    [leap_bits (s_leap st) * 64 + 5 * 8 + 4; s_stratum st; q_poll q; s_precision st]
+    ++ s_rdelay_t32 st ++ s_rdisp_t32 st ++ [0; 0; 0; if s_stratum st <? 16 then 1 else 0]
+    ++ zeros 8 ++ q_xmit q ++ recv ++ now
+  else
+    [leap_bits (s_leap st) * 64 + q_version q * 8 + 4; s_stratum st; q_poll q; s_precision st]
+    ++ s_rdelay_short st ++ s_rdisp_short st ++ s_refid st
+    ++ (if (q_version q =? 4) && q_upgrade q && (match k with KTime => true | _ => false end)
+        then bytes_of_string UPGRADE_TIMESTAMP else truncate_ref recv)
+    ++ q_xmit q ++ recv ++ now.
+
+Definition kiss_header (k : kind) (q : request) : list Z :=
+  if q_version q =? 5 then
+    [5 * 8 + 4; 0;
+     match k with KDeny | KNtsDeny => 127 | KRate | KNtsRate => poll_force_inc (q_poll q) | _ => 0 end; 0]
+    ++ zeros 4 ++ zeros 4 ++ [0; 0; 0; match k with KNak => 4 | _ => 0 end]
+    ++ zeros 8 ++ q_xmit q ++ zeros 8 ++ zeros 8
+  else
+    [q_version q * 8 + 4; 0; 0; 0] ++ zeros 4 ++ zeros 4
+    ++ bytes_of_string (match k with KDeny | KNtsDeny => KISS_DENY | KRate | KNtsRate => KISS_RATE | _ => KISS_NTSN end)
+    ++ zeros 8 ++ q_xmit q ++ zeros 8 ++ zeros 8.
+
+Lemma build_header tf k alg st q recv now mlen a :
+  (q_version q = 3 \/ q_version q = 4 \/ q_version q = 5) ->
+  build tf k alg st q recv now mlen = Ok a ->
+  a_header a = if is_time_kind k then time_header k st q recv now else kiss_header k q.
+Proof.
+  intros HV. unfold build, time_header, kiss_header, hdr34_time, hdr34_kiss, hdr5_time, hdr5_kiss, zero8, zero4.
+  destruct k; cbv zeta;
+    destruct (q_version q =? 3) eqn:E3; try discriminate;
+    try (destruct (q_version q =? 4) eqn:E4);
+    try (destruct (q_version q =? 5) eqn:E5); try lia;
+    intros H; apply Ok_inj in H; subst a; cbn [a_header mk_answer is_time_kind andb];
+    try (apply Zeqb_cases in E3; rewrite E3); try (apply Zeqb_cases in E4; rewrite E4);
+    try reflexivity; try (destruct (q_upgrade q); reflexivity).
+Qed.
+
+(* ------------------------------------------------------------------ C19 *)
+Lemma decision_decrypt_failed cfg q k alg stats :
+  q_decrypt_failed q = true -> decision cfg q = inl (Some (k, alg, stats)) ->
+  (k = KNak /\ stats = [q_version q; 1; 2; 0]) \/ (k = KDeny /\ c_intended cfg = 1).
+Proof.
+  intros HD. unfold decision. rewrite HD. cbn [negb andb]. cbv zeta.
+  destruct (negb (existsb (Z.eqb (q_version q)) (c_accepted cfg))); [discriminate|].
+  destruct (c_intended cfg =? 1) eqn:E1.
+  - change (1 =? 0) with false. cbn [negb andb].
+    destruct (c_require_nts cfg =? 1); [discriminate|].
+    destruct (c_require_nts cfg =? 2); cbn [negb andb]; change (1 =? 0) with false; change (1 =? 1) with true; cbv iota;
+      intros H; inversion H; right; split; auto; lia.
+  - change (0 =? 0) with true. cbn [negb andb]. cbv iota. intros H; inversion H. left. auto.
+Qed.
+
+Lemma decision_nts_time cfg q alg stats :
+  decision cfg q = inl (Some (KNtsTime, alg, stats)) ->
+  q_decrypt_failed q = false /\ q_cookie q = Some alg /\ q_mode q = 3 /\ stats = [q_version q; 1; 4; c_intended cfg].
+Proof.
+  unfold decision. destruct (q_decrypt_failed q) eqn:HD; cbn [negb andb]; cbv zeta.
+  - destruct (negb (existsb (Z.eqb (q_version q)) (c_accepted cfg))); [discriminate|].
+    destruct (c_intended cfg =? 1).
+    + change (1 =? 0) with false. cbn [negb andb].
+      destruct (c_require_nts cfg =? 1); [discriminate|].
+      destruct (c_require_nts cfg =? 2); cbn [negb andb]; change (1 =? 0) with false; change (1 =? 1) with true; cbv iota;
+        intros H; inversion H.
+    + change (0 =? 0) with true. cbn [negb andb]. cbv iota. intros H; inversion H.
+  - destruct (q_mode q =? 3) eqn:EM; cbn [negb]; [|discriminate].
+    destruct (negb (existsb (Z.eqb (q_version q)) (c_accepted cfg))); [discriminate|].
+    destruct (q_cookie q) as [al|] eqn:EC.
+    + cbn [negb andb]. cbv iota.
+      destruct (c_intended cfg =? 0) eqn:E0; [intros H; inversion H|].
+      destruct (c_intended cfg =? 1) eqn:E1; intros H; inversion H; subst. repeat split; auto. lia.
+    + destruct (c_intended cfg =? 0) eqn:E0; cbn [negb andb].
+      * cbv iota. rewrite E0. intros H; inversion H.
+      * destruct (c_require_nts cfg =? 1); [discriminate|].
+        destruct (c_require_nts cfg =? 2); cbv iota.
+        -- change (1 =? 0) with false. change (1 =? 1) with true. cbv iota. intros H; inversion H.
+        -- rewrite E0. destruct (c_intended cfg =? 1); intros H; inversion H.
+Qed.
+
+Definition big_slot (fresh : Z) (f : field) : bool :=
+  match f with FCookie n | FPlaceholder n => fresh <=? n | _ => false end.
+
+Lemma filter_map_fresh_len fresh l :
+  len (filter_map (fresh_for fresh) l) = len (filter (big_slot fresh) l).
+Proof.
+  induction l as [|x r IH]; [reflexivity|].
+  destruct x; simpl; auto;
+    destruct (fresh >? n) eqn:E; destruct (fresh <=? n) eqn:E'; try lia; rewrite ?len_cons, IH; reflexivity.
+Qed.
+
+Lemma len_filter_le {A} (p : A -> bool) l : len (filter p l) <= len l.
+Proof. induction l as [|x r IH]; simpl; [lia|]. destruct (p x); rewrite ?len_cons; lia. Qed.
+
+Lemma len_filter_firstn_le {A} (p : A -> bool) n l : len (filter p (firstn n l)) <= len (filter p l).
+Proof.
+  revert l. induction n; intros l; simpl; [apply len_nonneg|].
+  destruct l as [|x r]; simpl; [lia|]. specialize (IHn r). destruct (p x); rewrite ?len_cons; lia.
+Qed.
+
+Lemma len_firstn_le {A} n (l : list A) : len (firstn n l) <= Z.of_nat n /\ len (firstn n l) <= len l.
+Proof. unfold len. pose proof (firstn_le_length n l). rewrite firstn_length. lia. Qed.
+
+Lemma fresh_cookies_bounds tf alg q :
+  len (fresh_cookies tf alg q) <= RESP_MAX_COOKIES
+  /\ len (fresh_cookies tf alg q) <= len (filter (big_slot (cookie_len alg)) (q_auth q ++ q_enc q))
+  /\ Forall (fun f => f = FCookie (cookie_len alg)) (fresh_cookies tf alg q).
+Proof.
+  split; [|split].
+  - unfold fresh_cookies. destruct tf.
+    + pose proof (len_firstn_le (Z.to_nat RESP_MAX_COOKIES) (filter_map (fresh_for (cookie_len alg)) (q_auth q ++ q_enc q))).
+      consts. lia.
+    + rewrite filter_map_fresh_len.
+      pose proof (len_filter_le (big_slot (cookie_len alg)) (firstn (Z.to_nat RESP_MAX_COOKIES) (q_auth q ++ q_enc q))).
+      pose proof (len_firstn_le (Z.to_nat RESP_MAX_COOKIES) (q_auth q ++ q_enc q)). consts. lia.
+  - unfold fresh_cookies. destruct tf.
+    + pose proof (len_firstn_le (Z.to_nat RESP_MAX_COOKIES) (filter_map (fresh_for (cookie_len alg)) (q_auth q ++ q_enc q))).
+      rewrite filter_map_fresh_len in H. lia.
+    + rewrite filter_map_fresh_len. apply len_filter_firstn_le.
+  - apply Forall_forall. intros f HF. apply fresh_cookies_In in HF. tauto.
+Qed.
+
+(* with the limit applied to the cookies handed out, the request's own cookie always yields one *)
+Lemma fresh_nonempty alg q :
+  existsb (fun f => match f with FCookie n => cookie_len alg <=? n | _ => false end) (q_auth q) = true ->
+  fresh_cookies true alg q <> [].
+Proof.
+  intros H. unfold fresh_cookies.
+  assert (N: filter_map (fresh_for (cookie_len alg)) (q_auth q ++ q_enc q) <> []).
+  { apply existsb_exists in H. destruct H as [x [HI HX]].
+    destruct x; try discriminate.
+    assert (In (FCookie n) (q_auth q ++ q_enc q)) by (apply in_or_app; auto).
+    clear HI. induction (q_auth q ++ q_enc q) as [|y r IH]; [contradiction|].
+    simpl. destruct H as [H|H].
+    - subst y. simpl. destruct (cookie_len alg >? n) eqn:E; [lia|]. discriminate.
+    - destruct (fresh_for (cookie_len alg) y); [discriminate|]. auto. }
+  destruct (filter_map (fresh_for (cookie_len alg)) (q_auth q ++ q_enc q)); [contradiction|].
+  consts. simpl. discriminate.
+Qed.
+
+Lemma serialize_auth_present a B w :
+  a_ver a <> 3 -> a_enc a <> [] -> serialize a B = Ok w ->
+  a_cipher a = true /\
+  exists fl ct, w_auth w = Some (fl, NONCE_LEN_256, ct, map cookie_code (a_enc a)).
+Proof.
+  intros V NE. unfold serialize. cbv zeta.
+  destruct (a_ver a =? 3) eqn:E3; [lia|].
+  assert (is_nil (a_enc a) = false) as -> by (destruct (a_enc a); [contradiction|reflexivity]).
+  rewrite orb_true_r. cbn [negb].
+  destruct (a_cipher a) eqn:EC; cbn [negb]; [|cbn [res_bind]; discriminate].
+  destruct (encode_fields (a_ver a =? 5) min_auth (a_auth a)) as [ab| |]; cbn [res_bind]; try discriminate.
+  destruct (encode_fields (a_ver a =? 5) min_enc (a_enc a)) as [pb| |]; cbn [res_bind]; try discriminate.
+  destruct (encode_fields (a_ver a =? 5) (min_untrusted (a_ver a =? 5)) (a_untrusted a)) as [ub| |]; cbn [res_bind]; try discriminate.
+  cbn [fst snd].
+  match goal with |- res_bind ?X _ = _ -> _ => assert (HW: forall w1, X = Ok w1 -> w_auth w1 = Some (8 + next4 NONCE_LEN_256 + next4 (len pb + 16), NONCE_LEN_256, len pb + 16, map cookie_code (a_enc a))) end.
+  { intros w1. destruct (a_ver a =? 5); [|intros H; apply Ok_inj in H; subst; reflexivity].
+    destruct (a_desired a); [|intros H; apply Ok_inj in H; subst; reflexivity].
+    match goal with |- (if ?c then _ else _) = _ -> _ => destruct c end; [|intros H; apply Ok_inj in H; subst; reflexivity].
+    match goal with |- res_bind ?Y _ = _ -> _ => destruct Y; cbn [res_bind]; try discriminate end.
+    intros H; apply Ok_inj in H; subst; reflexivity. }
+  bind_step.
+  match goal with |- (if ?c then _ else _) = _ -> _ => destruct c; [|discriminate] end.
+  intros H; apply Ok_inj in H; subst. split; auto. eauto.
+Qed.
+
+(* cookies: encode / decode under the server's key set, ideal deterministic AEAD as Section hypotheses *)
+Section Cookies.
+  Variables key nonce : Type.
+  Variable enc : key -> nonce -> list Z -> list Z.
+  Variable dec : key -> nonce -> list Z -> option (list Z).
+  Hypothesis dec_enc : forall k n p, dec k n (enc k n p) = Some p.
+
+  Record keyset : Type := { ks_keys : list key; ks_offset : Z; ks_primary : Z }.
+  (* cookie on the wire: key id, nonce, ciphertext; its plaintext: algorithm, s2c key, c2s key *)
+  Definition cookie_plain (alg : Z) (s2c c2s : list Z) : list Z := be16 alg ++ s2c ++ c2s.
+  Definition encode_cookie (ks : keyset) (n : nonce) (alg : Z) (s2c c2s : list Z) : res (Z * nonce * list Z) :=
+    match nth_error (ks_keys ks) (Z.to_nat (ks_primary ks)) with
+    | Some k => Ok (wrap 32 (ks_primary ks + ks_offset ks), n, enc k n (cookie_plain alg s2c c2s))
+    | None => Panic 6              (* keys[primary] out of range *)
+    end.
+  Definition decode_cookie (ks : keyset) (c : Z * nonce * list Z) : option (list Z) :=
+    match c with
+    | (id, n, ct) =>
+        match nth_error (ks_keys ks) (Z.to_nat (wrap 32 (id - ks_offset ks))) with
+        | Some k => dec k n ct
+        | None => None
+        end
+    end.
+
+  Lemma cookie_roundtrip ks n alg s2c c2s c :
+    0 <= ks_primary ks < 2 ^ 32 -> 0 <= ks_offset ks < 2 ^ 32 ->
+    encode_cookie ks n alg s2c c2s = Ok c ->
+    decode_cookie ks c = Some (cookie_plain alg s2c c2s).
+  Proof.
+    intros HP HO. unfold encode_cookie.
+    destruct (nth_error (ks_keys ks) (Z.to_nat (ks_primary ks))) as [k|] eqn:E; [|discriminate].
+    intros H. apply Ok_inj in H. subst c. unfold decode_cookie.
+    assert (wrap 32 (wrap 32 (ks_primary ks + ks_offset ks) - ks_offset ks) = ks_primary ks) as ->.
+    { unfold wrap. rewrite Zminus_mod_idemp_l. replace (ks_primary ks + ks_offset ks - ks_offset ks) with (ks_primary ks) by lia.
+      apply Z.mod_small. lia. }
+    rewrite E. apply dec_enc.
+  Qed.
+End Cookies.
+
+(* ------------------------------------------------------------------ from handle back to the builders *)
+Lemma handle_respond_inv tf cfg st q recv now mlen B stats w :
+  handle tf cfg st q recv now mlen B = ORespond stats w ->
+  exists k alg a, decision cfg q = inl (Some (k, alg, stats))
+    /\ build tf k alg st q recv now mlen = Ok a /\ serialize a B = Ok w.
+Proof.
+  unfold handle. destruct (decision cfg q) as [[[[k alg] st0]|]|]; try discriminate.
+  unfold respond. destruct (build tf k alg st q recv now mlen) as [a| |] eqn:EB; try discriminate.
+  destruct (serialize a B) as [w0| |] eqn:ES; try discriminate.
+  intros H. inversion H; subst. eauto 6.
+Qed.
+
+Lemma serialize_prefix a B w : serialize a B = Ok w -> exists rest, w_prefix w = a_header a ++ rest.
+Proof.
+  unfold serialize. cbv zeta. destruct (a_ver a =? 3).
+  - destruct (len (a_header a) <=? B); [|discriminate]. intros H; apply Ok_inj in H; subst. exists []. simpl. rewrite app_nil_r. reflexivity.
+  - match goal with |- res_bind ?X _ = _ -> _ => destruct X as [ap| |]; cbn [res_bind]; try discriminate end.
+    match goal with |- res_bind ?X _ = _ -> _ => destruct X as [ub| |]; cbn [res_bind]; try discriminate end.
+    match goal with |- res_bind ?X _ = _ -> _ => assert (HW: forall w1, X = Ok w1 -> w_prefix w1 = a_header a ++ fst ap) end.
+    { intros w1. destruct (a_ver a =? 5); [|intros H; apply Ok_inj in H; subst; reflexivity].
+      destruct (a_desired a); [|intros H; apply Ok_inj in H; subst; reflexivity].
+      match goal with |- (if ?c then _ else _) = _ -> _ => destruct c end; [|intros H; apply Ok_inj in H; subst; reflexivity].
+      match goal with |- res_bind ?Y _ = _ -> _ => destruct Y; cbn [res_bind]; try discriminate end.
+      intros H; apply Ok_inj in H; subst; reflexivity. }
+    bind_step.
+    match goal with |- (if ?c then _ else _) = _ -> _ => destruct c; [|discriminate] end.
+    intros H; apply Ok_inj in H; subst. eauto.
+Qed.
+
+Lemma build_time_header tf k alg st q recv now mlen a :
+  (q_version q = 3 \/ q_version q = 4 \/ q_version q = 5) -> is_time_kind k = true ->
+  build tf k alg st q recv now mlen = Ok a ->
+  a_ver a = q_version q /\ a_header a = time_header k st q recv now.
+Proof.
+  intros HV HK HB. split.
+  - apply (build_fields _ _ _ _ _ _ _ _ _ HV HB).
+  - rewrite (build_header _ _ _ _ _ _ _ _ _ HV HB), HK. reflexivity.
+Qed.
+
+Lemma build_kiss_header tf k alg st q recv now mlen a :
+  (q_version q = 3 \/ q_version q = 4 \/ q_version q = 5) -> is_time_kind k = false ->
+  build tf k alg st q recv now mlen = Ok a ->
+  a_ver a = q_version q /\ a_header a = kiss_header k q.
+Proof.
+  intros HV HK HB. split.
+  - apply (build_fields _ _ _ _ _ _ _ _ _ HV HB).
+  - rewrite (build_header _ _ _ _ _ _ _ _ _ HV HB), HK. reflexivity.
+Qed.
+
+(* the request with other encrypted fields *)
+Definition with_enc (q : request) (e : list field) : request :=
+  {| q_version := q_version q; q_mode := q_mode q; q_poll := q_poll q; q_xmit := q_xmit q; q_upgrade := q_upgrade q;
+     q_untrusted := q_untrusted q; q_auth := q_auth q; q_enc := e; q_mac := q_mac q; q_cookie := q_cookie q;
+     q_decrypt_failed := q_decrypt_failed q; q_auths := q_auths q |}.
+
+Lemma build_ignores_encrypted tf k alg st q recv now mlen e :
+  k <> KNtsTime -> build tf k alg st (with_enc q e) recv now mlen = build tf k alg st q recv now mlen.
+Proof. destruct k; intros H; try congruence; reflexivity. Qed.
+
+Lemma decision_ignores_encrypted cfg q e : decision cfg (with_enc q e) = decision cfg q.
+Proof. reflexivity. Qed.
+
+(* ------------------------------------------------------------------ C17: when serialize succeeds *)
+Definition auth_present (a : answer) : bool := negb (is_nil (a_auth a)) || negb (is_nil (a_enc a)).
+Definition raw_size (a : answer) : Z :=
+  len (a_header a)
+  + (if auth_present a
+     then esz_list min_auth (a_auth a) + 8 + next4 NONCE_LEN_256 + next4 (esz_list min_enc (a_enc a) + 16)
+     else 0)
+  + esz_list (min_untrusted (a_ver a =? 5)) (a_untrusted a).
+
+Lemma Forall_encodable_np l : Forall encodable l -> Forall not_padding l.
+Proof. apply Forall_impl. exact encodable_not_padding. Qed.
+
+Lemma serialize_ok a B :
+  a_ver a <> 3 ->
+  Forall encodable (a_untrusted a) -> Forall encodable (a_auth a) -> Forall encodable (a_enc a) ->
+  (auth_present a = true -> a_cipher a = true) ->
+  raw_size a <= B ->
+  ((a_ver a =? 5) = true -> forall d, a_desired a = Some d ->
+     d = B /\ B mod 4 = 0 /\ raw_size a mod 4 = 0 /\ 0 <= raw_size a /\ B <= 65535) ->
+  exists w, serialize a B = Ok w.
+Proof.
+  intros V FU FA FE HC HR HP.
+  destruct (encode_fields_ok (a_ver a =? 5) min_auth _ FA) as [ab Eab].
+  destruct (encode_fields_ok (a_ver a =? 5) min_enc _ FE) as [pb Epb].
+  destruct (encode_fields_ok (a_ver a =? 5) (min_untrusted (a_ver a =? 5)) _ FU) as [ub Eub].
+  pose proof (encode_fields_len _ _ _ _ (Forall_encodable_np _ FA) Eab) as Lab.
+  pose proof (encode_fields_len _ _ _ _ (Forall_encodable_np _ FE) Epb) as Lpb.
+  pose proof (encode_fields_len _ _ _ _ (Forall_encodable_np _ FU) Eub) as Lub.
+  unfold serialize. cbv zeta. destruct (a_ver a =? 3) eqn:E3; [lia|].
+  unfold raw_size, auth_present in *.
+  assert (exists ap,
+    (if negb (is_nil (a_auth a)) || negb (is_nil (a_enc a))
+     then if negb (a_cipher a) then Err 4
+          else do ab0 <- encode_fields (a_ver a =? 5) min_auth (a_auth a);
+               do pb0 <- encode_fields (a_ver a =? 5) min_enc (a_enc a);
+               Ok (ab0, Some (8 + next4 NONCE_LEN_256 + next4 (len pb0 + 16), NONCE_LEN_256, len pb0 + 16, map cookie_code (a_enc a)))
+     else Ok ([], None)) = Ok ap
+    /\ len (fst ap) + wauth_len (snd ap) =
+       (if negb (is_nil (a_auth a)) || negb (is_nil (a_enc a))
+        then esz_list min_auth (a_auth a) + 8 + next4 NONCE_LEN_256 + next4 (esz_list min_enc (a_enc a) + 16) else 0)) as [ap [Eap Lap]].
+  { destruct (negb (is_nil (a_auth a)) || negb (is_nil (a_enc a))) eqn:EP.
+    - rewrite (HC eq_refl). cbn [negb]. rewrite Eab, Epb. cbn [res_bind]. eexists. split; [reflexivity|].
+      cbn [fst snd wauth_len]. rewrite <- Lab, <- Lpb. lia.
+    - eexists. split; [reflexivity|]. reflexivity. }
+  rewrite Eap. cbn [res_bind]. rewrite Eub. cbn [res_bind].
+  match goal with |- context [wire_len ?W] => set (w0 := W) end.
+  assert (LW: wire_len w0 = len (a_header a) + (len (fst ap) + wauth_len (snd ap)) + len ub).
+  { unfold w0, wire_len. cbn [w_prefix w_auth w_suffix]. rewrite len_app. lia. }
+  destruct (a_ver a =? 5) eqn:E5.
+  - destruct (a_desired a) as [d|] eqn:ED.
+    + destruct (HP eq_refl d eq_refl) as [HD [HB4 [HR4 [HR0 HB]]]]. subst d.
+      destruct (B >? wire_len w0) eqn:G.
+      * assert (4 <= B - wire_len w0 <= 65535) by lia.
+        destruct (padding_ok (B - wire_len w0) H) as [p Ep]. rewrite Ep. cbn [res_bind].
+        apply padding_len in Ep; [|change (2 ^ 64) with 18446744073709551616; lia|lia].
+        match goal with |- context [wire_len ?W <=? B] => assert (wire_len W = B) as -> end.
+        { unfold w0 in *. unfold wire_len in *. cbn [w_prefix w_auth w_suffix] in *. rewrite !len_app in *. lia. }
+        rewrite Z.leb_refl. eauto.
+      * cbn [res_bind]. destruct (wire_len w0 <=? B) eqn:LE; [eauto|lia].
+    + cbn [res_bind]. destruct (wire_len w0 <=? B) eqn:LE; [eauto|lia].
+  - cbn [res_bind]. destruct (wire_len w0 <=? B) eqn:LE; [eauto|lia].
+Qed.
